@@ -24,7 +24,8 @@ const Prop = "C31"
 // Stream is one application stream: a sequence of records written by one
 // task on one side.
 type Stream struct {
-	Kind  string `json:"kind"` // data | stderr | greq (global request, no reply) | greply (global request with reply) | creq (channel request, no reply)
+	Kind  string `json:"kind"` // data | stderr | greq (global request, no reply) | greply (global request with reply) | creq (channel request, no reply) | raw (raw mode: packets of message type Type)
+	Type  byte   `json:"type,omitempty"`
 	Side  int    `json:"side"` // 0 = written by the client, 1 = by the server
 	Chan  int    `json:"chan"` // channel index for data/stderr/creq
 	Sizes []int  `json:"sizes"`
@@ -36,18 +37,21 @@ type Rekey struct {
 }
 
 type Scenario struct {
-	Channels    int      `json:"channels"`
-	Streams     []Stream `json:"streams"`
-	ThresholdC  uint64   `json:"threshold_c"`
-	ThresholdS  uint64   `json:"threshold_s"`
-	Rekeys      []Rekey  `json:"rekeys"`
-	Cipher      string   `json:"cipher,omitempty"`
-	MAC         string   `json:"mac,omitempty"`
-	StallDen    int      `json:"stall_den"` // 1/StallDen of the KEXINITs stall a direction; 0 = never
-	SwitchDen   int      `json:"switch_den"`
-	FragDen     int      `json:"frag_den"`
-	ReadChunk   int      `json:"read_chunk"`
-	LinkCap     int      `json:"link_cap"` // bytes each link direction buffers (0 = unbounded)
+	Channels   int      `json:"channels"`
+	Streams    []Stream `json:"streams"`
+	ThresholdC uint64   `json:"threshold_c"`
+	ThresholdS uint64   `json:"threshold_s"`
+	Rekeys     []Rekey  `json:"rekeys"`
+	Cipher     string   `json:"cipher,omitempty"`
+	MAC        string   `json:"mac,omitempty"`
+	StallDen   int      `json:"stall_den"` // 1/StallDen of the KEXINITs stall a direction; 0 = never
+	SwitchDen  int      `json:"switch_den"`
+	FragDen    int      `json:"frag_den"`
+	ReadChunk  int      `json:"read_chunk"`
+	LinkCap    int      `json:"link_cap"` // bytes each link direction buffers (0 = unbounded)
+	// Raw: the handshake transports are driven directly (no mux): every
+	// stream is of kind raw
+	Raw bool `json:"raw,omitempty"`
 }
 
 var cipherChoices = []string{"", "", "", "aes128-gcm@openssh.com", "chacha20-poly1305@openssh.com", "aes128-ctr", "aes256-ctr"}
@@ -108,6 +112,22 @@ func gen(r *rand.Rand, prop, tier string, index int) any {
 		keep = append(keep, st)
 	}
 	s.Streams = keep
+	if r.IntN(4) == 0 {
+		s.Raw = true
+		s.Channels = 0
+		for i := range s.Streams {
+			st := &s.Streams[i]
+			st.Kind, st.Chan = "raw", 0
+			st.Type = rawTypes[r.IntN(len(rawTypes))]
+			for k, z := range st.Sizes {
+				if z < 8 {
+					st.Sizes[k] = 8
+				} else if z > 30000 {
+					st.Sizes[k] = 30000
+				}
+			}
+		}
+	}
 	for i, n := 0, r.IntN(4); i < n; i++ {
 		s.Rekeys = append(s.Rekeys, Rekey{Side: r.IntN(2), After: r.IntN(40)})
 	}
@@ -126,22 +146,23 @@ type streamState struct {
 }
 
 type run struct {
-	c       *core.Ctx
-	s       *Scenario
-	w       *sshsim.Wire
-	st      []*streamState
-	conns   [2]ssh.Conn
-	chans   [2][]ssh.Channel
-	ready   [2]int // channels ready per side
-	readyK  struct{ _ int }
-	records int
-	recK    struct{ _ int }
-	phase   int
-	ctl     struct{ _ int }
-	inKex   [2]bool
+	c        *core.Ctx
+	s        *Scenario
+	w        *sshsim.Wire
+	st       []*streamState
+	conns    [2]ssh.Conn
+	raw      [2]*ssh.VerifRawConn
+	chans    [2][]ssh.Channel
+	ready    [2]int // channels ready per side
+	readyK   struct{ _ int }
+	records  int
+	recK     struct{ _ int }
+	phase    int
+	ctl      struct{ _ int }
+	inKex    [2]bool
 	kexCount int
 	crossed  bool
-	fatal   bool
+	fatal    bool
 	// inReply[side] is set while that side's global-request handler is inside
 	// Request.Reply (it writes a packet while it is the only consumer of the
 	// inbound request stream).
@@ -152,6 +173,10 @@ type openMsg struct{ Index uint32 }
 
 func runHarness(c *core.Ctx, scnAny any) {
 	s := scnAny.(*Scenario)
+	if s.Raw {
+		runRaw(c, s)
+		return
+	}
 	r := &run{c: c, s: s, w: sshsim.NewWire(Prop, s.FragDen)}
 	r.w.C2S.Cap, r.w.S2C.Cap = s.LinkCap, s.LinkCap
 	for i, st := range s.Streams {
@@ -443,7 +468,7 @@ func (r *run) onPacket(p *wiremon.Packet) {
 			rt.Probe("rekey-started")
 		}
 		// fault: stall one direction while this exchange is open
-		if r.s.StallDen > 0 && r.phase == 0 && r.conns[0] != nil && r.conns[1] != nil && r.c.Sim.ChooseP(1, r.s.StallDen) {
+		if r.s.StallDen > 0 && r.phase == 0 && (r.conns[0] != nil && r.conns[1] != nil || r.raw[0] != nil && r.raw[1] != nil) && r.c.Sim.ChooseP(1, r.s.StallDen) {
 			if r.c.Choose(2) == 0 {
 				r.w.S2C.Stall()
 			} else {
@@ -473,6 +498,16 @@ func (r *run) onIdle() bool {
 					rt.Probe("pending-queue-used")
 				}
 				_ = side
+			}
+		}
+		for _, rc := range r.raw {
+			if rc != nil {
+				if n := rc.PendingPackets(); n >= 64 {
+					rt.Probe("pending-queue-full")
+					rt.Probe("raw-pending-queue-full")
+				} else if n > 0 {
+					rt.Probe("pending-queue-used")
+				}
 			}
 		}
 		r.w.C2S.Unstall()
@@ -515,7 +550,10 @@ func (r *run) onIdle() bool {
 		if r.kexCount >= 6 {
 			rt.Probe("three-or-more-rekeys")
 		}
-		r.c.State("kex=%d", r.kexCount/2)
+		if r.s.Raw {
+			rt.Probe("raw-mode-completed")
+		}
+		r.c.State("kex=%d raw=%v", r.kexCount/2, r.s.Raw)
 		r.phase = 2
 		rt.Wake(&r.ctl)
 		return true
@@ -551,7 +589,7 @@ func shrink(scnAny any) []any {
 		n.Rekeys = append(n.Rekeys[:i:i], n.Rekeys[i+1:]...)
 		out = append(out, n)
 	}
-	if s.Channels > 1 {
+	if s.Channels > 1 && !s.Raw {
 		n := cp()
 		n.Channels = 1
 		for i := range n.Streams {
